@@ -290,24 +290,31 @@ def run_check(pid: str, tier: str, base_seed: int, runs: Optional[int], jobs: in
     sys.stdout.flush()
 
     known = load_known(pid)
-    open_sigs = {e["signature"]: e for e in known if e.get("status") == "open"}
+    open_sigs: Dict[str, Dict[str, Any]] = {}
+    for e in known:
+        if e.get("status") == "open":
+            for sg in (e.get("signatures") or [e.get("signature")]):
+                open_sigs[sg] = e
     exit_code = EXIT_OK
     harness_errors: List[str] = []
 
     # 1. replay stored programs of open known findings
     known_reproduced = []
-    for sig, e in sorted(open_sigs.items()):
-        rp = e.get("replay")
-        if not rp:
+    printed_entries = set()
+    for e in known:
+        if e.get("status") != "open" or not e.get("replay"):
             continue
-        with open(os.path.join(VERIF, rp), "r", encoding="utf-8") as fh:
+        sigs = e.get("signatures") or [e.get("signature")]
+        with open(os.path.join(VERIF, e["replay"]), "r", encoding="utf-8") as fh:
             doc = json.load(fh)
         out = safe_execute(mod, doc["program"])
-        if _same(out, sig):
-            print("KNOWN-FINDING: property=%s %s [%s]" % (pid, e.get("what_fails", ""), sig))
-            known_reproduced.append(sig)
+        hit = [sg for sg in sigs if _same(out, sg)]
+        if hit:
+            print("KNOWN-FINDING: property=%s %s [%s]" % (pid, e.get("what_fails", ""), hit[0]))
+            known_reproduced.extend(hit)
+            printed_entries.add(id(e))
         else:
-            print("note: known finding %s no longer reproduces from its stored program" % sig)
+            print("note: known finding %s no longer reproduces from its stored program" % (sigs[0],))
 
     # 2. explore
     chunk = max(1, min(50, n // (jobs * 4) or 1))
@@ -391,7 +398,9 @@ def run_check(pid: str, tier: str, base_seed: int, runs: Optional[int], jobs: in
         exit_code = EXIT_VIOLATION
     for sig, cnt in sorted(known_hits.items()):
         if sig not in known_reproduced:
-            print("KNOWN-FINDING: property=%s %s [%s]" % (pid, open_sigs[sig].get("what_fails", ""), sig))
+            if id(open_sigs[sig]) not in printed_entries:
+                print("KNOWN-FINDING: property=%s %s [%s]" % (pid, open_sigs[sig].get("what_fails", ""), sig))
+                printed_entries.add(id(open_sigs[sig]))
             known_reproduced.append(sig)
 
     wall = time.time() - t_start
